@@ -321,6 +321,14 @@ def _r2(repo, L, m, ba, ovr):
                     if isinstance(a, ast.FunctionDef):
                         break
                 best = max(mins) if mins else 0
+                if best < 2 and isinstance(c.func.value, ast.Name):
+                    # the premise may have been chosen by a helper that carries the owner-count guard itself
+                    ds = local_defs(f, c.func.value.id)
+                    for d_ in ds:
+                        if isinstance(d_, ast.Call):
+                            tg_, _, _ = repo.resolve_call(d_, f)
+                            if tg_:
+                                raise AnalysisError(f"{f.short}: the premise that is applied is chosen by {tg_[0].short}(): the owner-count guard is not visible at the apply() site (form not understood)")
                 L.check(best >= 2, "R2", f"{f.short}:{norm(c)}", f"applied only when >= {best} results own the contig", f"premise '{norm(c)}' is applied under a guard admitting {best} owner(s): the contig is removed from its only result and, being recorded as found, is never re-added — sequence lost", f.loc(c), witness={"guards": mins})
     L.floor("R2", "premise apply() sites", n_apply, 2)
     # no direct row surgery on overlap results outside OverlapResult
